@@ -135,7 +135,7 @@ func (g *gen) genCurriedFunc(typ types.Type) error {
 	p.P("return func(that %s) bool {", typeStr)
 	p.In()
 	if err := g.genStatement(typ, "this", "that"); err != nil {
-		return nil
+		return err
 	}
 	p.Out()
 	p.P("}")
@@ -169,7 +169,7 @@ func (g *gen) genFunc(typs []types.Type) error {
 	}
 	p.In()
 	if err := g.genStatement(typs[0], "this", "that"); err != nil {
-		return nil
+		return err
 	}
 	p.Out()
 	p.P("}")
